@@ -38,7 +38,8 @@ template <class G> static void add_grads(Canon &c, const G &g) {
   if constexpr (S >= 4) { c.mat(g.start.j); c.mat(g.end.j); }
 }
 // every observable of a spline, as raw bytes
-static std::string observe(Sp &s, int N) {
+// hint >= -1: evaluations go through the hinted overload, every query starting from a copy of that (possibly stale) caller-held hint
+static std::string observe(Sp &s, int N, int hint = -2) {
   Canon c;
   c.mat(s.getTrajectory().getCoefficients()); c.vec(s.getTrajectory().getBreakpoints()); c.vec(s.getCumulativeTimes()); c.vec(s.getTimeSegments()); c.mat(s.getSpacePoints());
   c.d(s.getStartTime()); c.d(s.getEndTime()); c.d(s.getDuration()); c.i(s.getNumSegments()); c.i(s.isInitialized());
@@ -46,18 +47,22 @@ static std::string observe(Sp &s, int N) {
   for (int kind = 0; kind < 2; ++kind) { Mat g; Eigen::VectorXd gt; upstream(N, kind, g, gt); add_grads(c, s.propagateGrad(g, gt)); }
   const auto &b = s.getTrajectory().getBreakpoints();
   for (int k = 0; k <= M; ++k) for (size_t i = 0; i < b.size(); ++i) { double t = i + 1 < b.size() ? b[i] + 0.3 * (b[i + 1] - b[i]) : b[i]; auto v = s.getTrajectory().evaluate(t, k); c.raw(v.data(), sizeof(double) * D); }
+  // values at every knot itself and just inside both neighbours (right-continuity), order 0 and 1
+  for (int k = 0; k <= 1; ++k) for (size_t i = 0; i < b.size(); ++i) for (int w = -1; w <= 1; ++w) { double t = w == 0 ? b[i] : w < 0 ? (i ? b[i] - 0.125 * (b[i] - b[i - 1]) : b[i]) : (i + 1 < b.size() ? b[i] + 0.125 * (b[i + 1] - b[i]) : b[i]);
+    if (hint >= -1) { int h = hint; auto v = s.getTrajectory().evaluate(t, &h, k); c.raw(v.data(), sizeof(double) * D); } else { auto v = s.getTrajectory().evaluate(t, k); c.raw(v.data(), sizeof(double) * D); } }
   c.d(s.getEnergy());  // again, after the other queries
   return c.s;
 }
 
 struct World {
-  std::unique_ptr<Sp> X; int m = -1;
+  std::unique_ptr<Sp> X; int m = -1; int hint = 0;   // hint: the caller-held segment hint of the hinted evaluate overloads, kept across updates
   World() : X(new Sp()) {}
-  int nops() const { return 16; }
+  int nops() const { return 19; }
   bool enabled(int op) const { return op < 10 || m >= 0; }
   std::string opname(int op) const {
     static const char *n[] = {"update(dur,N=1)", "update(dur,N=2)", "update(dur,N=3)", "update(dur,N=5)", "update(dur,N=3')", "update(tp,N=1)", "update(tp,N=2)", "update(tp,N=3)", "update(tp,N=5)", "update(tp,N=3')",
-                              "getEnergy", "getEnergyGrad", "partial grads", "propagateGrad(unit)", "propagateGrad(dense)", "evaluate grid"};
+                              "getEnergy", "getEnergyGrad", "partial grads", "propagateGrad(unit)", "propagateGrad(dense)", "evaluate grid",
+                              "hinted evaluate (kept hint) inside the first segment", "hinted evaluate (kept hint) at every knot, ascending", "hinted evaluate (kept hint) at the end time"};
     return n[op];
   }
   void apply(int op) {
@@ -69,19 +74,23 @@ struct World {
     else if (op == 12) { (void)X->getEnergyPartialGradByCoeffs(); (void)X->getEnergyPartialGradByTimes(); }
     else if (op == 13 || op == 14) { Mat g; Eigen::VectorXd gt; upstream(ps[m].N, op - 13, g, gt); (void)X->propagateGrad(g, gt); }
     else if (op == 15) { const auto &b = X->getTrajectory().getBreakpoints(); for (int k = 0; k < 3; ++k) for (double t : b) (void)X->getTrajectory().evaluate(t, k); }
+    else if (op == 16) { const auto &b = X->getTrajectory().getBreakpoints(); (void)X->getTrajectory().evaluate(b[0] + 0.25 * (b[1] - b[0]), &hint, 0); }
+    else if (op == 17) { const auto &b = X->getTrajectory().getBreakpoints(); for (double t : b) (void)X->getTrajectory().evaluate(t, &hint, 1); }
+    else if (op == 18) { (void)X->getTrajectory().evaluate(X->getEndTime(), &hint, 0); }
   }
-  std::string canon() const { Canon c; canon_add(c, *X); c.i(m); return c.s; }
+  std::string canon() const { Canon c; canon_add(c, *X); c.i(m); c.i(hint); return c.s; }
   std::string check(std::string &digest) {
     if (m < 0) { digest = "none"; return X->isInitialized() ? "default-constructed spline claims to be initialised" : ""; }
     const auto &p = problems()[m];
-    digest = observe(*X, p.N);
+    digest = observe(*X, p.N, hint);   // the long-lived object, queried through the hinted overloads with the caller's current hint ...
     Sp fresh(p.T, p.P, p.t0, p.bc);
-    std::string want = observe(fresh, p.N);
+    std::string want = observe(fresh, p.N);   // ... must agree with un-hinted queries of a fresh object
     if (digest != want) {
       // find which observable differs, for the message
       Canon a, b; a.mat(X->getTrajectory().getCoefficients()); b.mat(fresh.getTrajectory().getCoefficients());
       if (a.s != b.s) return "coefficients differ from a freshly constructed spline with the same latest inputs";
       if (!bits_equal(X->getEnergy(), fresh.getEnergy())) return "getEnergy differs from a freshly constructed spline";
+      if (observe(*X, p.N) == want) return fmt("a hinted evaluation starting from the caller-held hint %d (left by earlier queries) differs from the un-hinted evaluation", hint);
       return "an observable (energy gradient / partials / propagateGrad / evaluate) differs bitwise from a freshly constructed spline with the same latest inputs";
     }
     return "";
